@@ -5,6 +5,7 @@ CONSTANTS
   Sizes = {2}
   KvPool <- KvPoolFull
   TokPool <- TokPoolFull
+  MixPool <- MixPoolFull
   Extra <- NoExtra
   GFirst = TRUE
   SelDet = TRUE
